@@ -34,7 +34,7 @@ def W3(init=None, contraction=True):
 
 def W4(init=None, contraction=True):
     return {"envs": ["A", "B", "C"], "custom": {}, "handles": {"h1": ["A", "B", "C"]}, "init": init or {},
-            "contraction": contraction}
+            "contraction": contraction, "D": 4}
 
 
 # ---------------------------------------------------------------------------------------
@@ -311,13 +311,13 @@ def probes_measure(seed, max_ce=2):
     return gen
 
 
-def probes_povm(seed):
+def probes_povm(seed, names1=("proj", "diag", "dil3"), names2=("proj", "dil3")):
     def gen(m, w, o):
         acts = []
         L = live(m)
         for s in L:
             for ent in entries_for(m, s):
-                for n in ("proj", "diag", "dil3"):
+                for n in names1:
                     for de in (True, False):
                         if ent == "state":
                             for partial in (False, True):
@@ -327,13 +327,13 @@ def probes_povm(seed):
         for e in m.envs:
             f, p = e + ".f", e + ".p"
             for t in ([f, p], [p, f]):
-                for n in ("proj", "dil3"):
+                for n in names2:
                     for de in (True, False):
                         acts.append(["povm", "env:" + e, t, n, de, True])
         for h, mem in sorted(m.members.items()):
             ms = [s for s in L if s in mem]
             for t in itertools.permutations(ms, 2):
-                for n in ("proj", "dil3"):
+                for n in names2:
                     for de in (True, False):
                         acts.append(["povm", "ce:" + h, list(t), n, de, True])
             break
@@ -367,6 +367,16 @@ def no_probes(m, w, o):
 
 # ---------------------------------------------------------------------------------------
 # registry
+
+ENT_PREFIX = [["op", "state", ["A.p"], "H", None], ["op", "ce:h1", ["A.p", "B.p"], "CX", None],
+              ["op", "state", ["A.p"], "S", None]]
+
+
+def with_prefix(w, prefix):
+    w = dict(w)
+    w["prefix"] = prefix
+    return w
+
 
 SEEDS_W3 = [
     ("W3/default", W3()),
@@ -421,8 +431,11 @@ def get(name, tier, seed):
         return {**base, "prop": "C07", "worlds": SEEDS_W3[:2] if q else SEEDS_W3 + SEEDS_W1,
                 "core": core, "probes": wide, "depth": 2 if q else 3}
     if name == "C09":
-        return {**base, "prop": "C09", "worlds": SEEDS_W3[:2] + SEEDS_W1[:2] if q else SEEDS_W3 + SEEDS_W1,
-                "core": core, "probes": probes_povm(seed), "depth": 2 if q else 3}
+        w9 = [("W3/ent", with_prefix(W3({"A.f": 1, "B.p": "V"}), ENT_PREFIX), 1), SEEDS_W1[1]] if q else \
+            SEEDS_W3 + SEEDS_W1 + [("W3/ent", with_prefix(W3({"A.f": 1, "B.p": "V"}), ENT_PREFIX))]
+        return {**base, "prop": "C09", "worlds": w9,
+                "core": core, "probes": probes_povm(seed, ("diag", "dil3"), ("dil3",)) if q else probes_povm(seed),
+                "depth": 2 if q else 3}
     if name == "C10":
         return {**base, "prop": "C10", "worlds": SEEDS_W3[:2] + SEEDS_W1[1:] if q else SEEDS_W3 + SEEDS_W1,
                 "core": core, "probes": probes_resize(seed), "depth": 2 if q else 3}
@@ -431,4 +444,78 @@ def get(name, tier, seed):
                      probes_structural(seed, 2), probes_measure(seed, 2), probes_resize(seed))
         return {**base, "prop": "C20", "worlds": SEEDS_W3[:2] if q else SEEDS_W3,
                 "core": core, "probes": wide, "depth": 1 if q else 2}
+    if name == "C13":
+        def core13(m, w, o):
+            acts = []
+            hs = sorted(m.members)
+            nxt = f"h{len(hs) + 1}"
+            pool = [e for e in m.envs if m.ref.alive(e + ".f") and m.ref.alive(e + ".p")] + customs(m) + hs
+            if len(hs) < (3 if q else 4):
+                for x in pool:
+                    acts.append(["ce_new", nxt, [x]])
+                for x, y in itertools.permutations(pool, 2):
+                    acts.append(["ce_new", nxt, [x, y]])
+                if not q:
+                    for t in itertools.permutations(pool[:4], 3):
+                        acts.append(["ce_new", nxt, list(t)])
+            L = live(m)
+            for h in hs[:2]:
+                ms = [x for x in L if x in m.members[h]]
+                P = [x for x in ms if m.ref.kinds[x] == "P"]
+                F = [x for x in ms if m.ref.kinds[x] == "F"]
+                if len(P) >= 2:
+                    acts.append(["op", "ce:" + h, [P[0], P[1]], "CX", None])
+                    acts.append(["ce_combine", h, [P[1], P[0]]])
+                    acts.append(["ce_reorder", h, [P[1], P[0]]])
+                if F and P:
+                    acts.append(["ce_combine", h, [F[0], P[-1]]])
+                    acts.append(["kraus", "ce:" + h, [P[0]], "dephase", None])
+                    acts.append(["measure", "ce:" + h, [P[0]], False, True])
+                    acts.append(["measure", "ce:" + h, [F[0]], True, False])
+            for e in m.envs[:1]:
+                acts.append(["env_combine", e])
+            return acts
+        WM = {"envs": ["A", "B", "C"], "custom": {"Q": 3}, "handles": {}, "init": {"A.f": 1, "B.p": "R"},
+              "contraction": True, "D": 3}
+        WX = {"envs": ["A", "B", "C", "D"], "custom": {}, "handles": {"h1": ["A", "B"], "h2": ["C", "D"]},
+              "init": {"A.f": 1, "C.p": "V"}, "contraction": True, "D": 3}
+        return {**base, "prop": "C13", "worlds": [("WM", WM), ("WX", WX)], "core": core13, "probes": no_probes,
+                "depth": 3 if q else 4, "extra_judges": []}
+    if name == "C11":
+        etas = [PI / 4, 0.3, -1.1, PI / 2]
+        phis = [PI / 2, -1.3, 2.4]
+
+        def core11(m, w, o):
+            acts = []
+            F = focks(m)
+            for a, b in itertools.permutations(F, 2):
+                h = first_handle(m, [a, b])
+                for eta in (etas if not q else etas[:2] + [seed_angle(seed, 0.2, 1.4)]):
+                    acts.append(["op", "ce:" + h, [a, b], "BS", {"eta": eta}])
+            for f in F:
+                for phi in (phis if not q else phis[:1] + [seed_angle(seed)]):
+                    acts.append(["op", "state", [f], "PhaseShift", {"phi": phi}])
+            if F:
+                h = first_handle(m, [F[0]])
+                P = pols(m)
+                if P:
+                    acts.append(["op", "ce:" + h, [F[0], P[0]], "XFP", None])
+                acts.append(["kraus", "state", [F[0]], "loss", None])
+                if len(F) > 1:
+                    acts.append(["ce_reorder", h, [F[1], F[0]]])
+            return acts
+        W11 = [("W4/100", W4({"A.f": 1})), ("W4/110", W4({"A.f": 1, "B.f": 1})), ("W4/200", W4({"A.f": 2})),
+               ("W4/210", W4({"A.f": 2, "B.f": 1})), ("W4/111", W4({"A.f": 1, "B.f": 1, "C.f": 1}))]
+        ks = range(0, 25, 2) if q else range(0, 25)
+        phis_mzi = [k * PI / 12 for k in ks] + [seed_angle(seed)]
+        for phi in phis_mzi:
+            wz = W2({"A.f": 1})
+            wz["prefix"] = [["op", "ce:h1", ["A.f", "B.f"], "BS", {"eta": PI / 4}],
+                            ["op", "state", ["A.f"], "PhaseShift", {"phi": phi}],
+                            ["op", "ce:h1", ["A.f", "B.f"], "BS", {"eta": PI / 4}]]
+            wz["tags"] = {"mzi_phi": phi, "mzi_arm": "A.f"}
+            W11.append((f"MZI/{phi:.4f}", wz, 0 if q else 1))
+        return {**base, "prop": "C11", "worlds": (W11[:3] + W11[5:]) if q else W11, "core": core11,
+                "probes": (lambda m, w, o: [["measure", "state", [f], True, False] for f in focks(m)]),
+                "depth": 2 if q else 3, "extra_judges": ["c11"]}
     raise KeyError(name)
